@@ -6,7 +6,8 @@ import ast
 from ..flow import ReachingDefs
 from ..program import (AnalysisError, call_name, dotted, kwarg, norm_key,
                        unparse, walk_no_nested)
-from ..util import (assigns_to_self_attr, calls_named, for_heads,
+from ..util import (assigns_to_self_attr, calls_named, cursor_execute_calls,
+                    for_heads,
                     is_self_attr, loop_body_ids, nodes_with_call,
                     signal_sends)
 
@@ -333,8 +334,7 @@ def r4_failing_statement(ctx):
     p = ctx.program
     f = p.func(SQL, 'SQLExecutor.run_sql')
     g = ctx.cfg(f)
-    execs = [(n, c) for n, c in nodes_with_call(g, 'execute')
-             if dotted(c.func) in ('cursor.execute', 'self._cursor.execute')]
+    execs = cursor_execute_calls(g)
     ctx.floor('cursor.execute sites in run_sql', len(execs), 1)
     rd = ReachingDefs(g, f.params)
     for n, c in execs:
@@ -494,11 +494,17 @@ def r5_one_transaction(ctx):
         for c in n.calls():
             if is_self_attr(c.func) and c.func.attr in commits - soft:
                 sites += 1
-                # accepted idiom: finishing under "not use_transaction"
+                # accepted idiom: "if <use transaction>: new_transaction()
+                # else: finish_transaction()" - the commit sits in the other
+                # arm of the very test that guards opening a transaction
+                opens = [m for m in g.nodes for cc in m.calls()
+                         if is_self_attr(cc.func) and
+                         cc.func.attr == 'new_transaction']
                 tests = [t for t in g.nodes if t.kind == 'test' and
                          isinstance(t.ast, ast.Name) and
-                         t.ast.id == 'use_transaction']
-                if any(g.guarded_by(n, t, 'F') for t in tests):
+                         any(g.guarded_by(o, t, 'T') for o in opens)]
+                if c.func.attr != 'new_transaction' and \
+                        any(g.guarded_by(n, t, 'F') for t in tests):
                     ctx.ok(f, 'commit only for NoTransactionSQL batches '
                            '(documented semantics)', c)
                 else:
